@@ -78,6 +78,8 @@ def faces(ctx, datas, opt, an, fk, fickling, cli_main, idx, chan="path"):
     os.chdir(ctx.tmp)
     try:
         jp = os.path.join(ctx.tmp, f"r{idx}.json") if "json" in opt else os.path.join(ctx.tmp, "safety_results.json")
+        if opt == "json_bad":
+            jp = os.path.join(ctx.tmp, "no_such_directory", f"r{idx}.json")
         if os.path.exists(jp):
             os.remove(jp)
         argv = ["fickling", "--check-safety"] + ([path] if chan == "path" else ["-"] if idx % 2 else []) \
@@ -104,6 +106,8 @@ def faces(ctx, datas, opt, an, fk, fickling, cli_main, idx, chan="path"):
                     rec["cli_rc"] = int(cli_main(argv))
                 except SystemExit as e:
                     rec["cli_rc"] = e.code if isinstance(e.code, int) else 2
+                except OSError:         # an escaping exception ends the process with a non-zero status
+                    rec["cli_rc"] = 1
         finally:
             if sys.stdin is not old_stdin:
                 try:
